@@ -1,7 +1,7 @@
 (** C02 - path(f), getpath and updates agree on the positions a filter denotes. (first stage)
     Model: Core/Run.v ([part_run]/[part_paths], [path_run]/[path_paths] mirror jaq-core/src/path.rs),
     Val/Index.v (mirrors the indexing primitives of jaq-json/src/lib.rs). *)
-From Coq Require Import List.
+From Coq Require Import List ZArith.
 From JaqV Require Import Base.Stream Val.Val Val.Err Val.Index Core.Natives Core.Run Proofs.PathLaws.
 Import ListNotations.
 
